@@ -27,6 +27,8 @@ func Main(args []string) int {
 		return cmdCheck(args[1:])
 	case "expect":
 		return cmdExpect(args[1:])
+	case "sweep":
+		return cmdSweep(args[1:])
 	case "replay":
 		return cmdReplay(args[1:])
 	case "selftest":
@@ -112,7 +114,7 @@ func cmdVerify(args []string) int {
 	for _, pat := range keys {
 		var matched []string
 		for k, c := range e.CS.ByKey {
-			if c.Kind == "func" && !c.Trusted && strings.Contains(k, pat) {
+			if c.Kind == "func" && (!c.Trusted || c.Safe) && strings.Contains(k, pat) {
 				matched = append(matched, k)
 			}
 		}
@@ -177,4 +179,3 @@ func cmdVerify(args []string) int {
 	}
 	return rc
 }
-
